@@ -108,7 +108,7 @@ func init() {
 
 func TestC08(t *testing.T) {
 	runFocused(t, "C08", histGen+"; every committed write must return exactly one log whose id exceeds all earlier ones, failed/dry-run/read operations none; the journal listing (both orders, any page size) must equal the sequence of committed writes; at the end the exported log payloads alone are replayed into a fresh reference model which must equal the live ledger's reads; non-trivial = history with a revert, a metadata delete and >= 3 commits; distinct = by operation history",
-		HistOpts{Features: GenFeatures, Steps: 25, Scripts: true, Reverts: true, Metadata: true, Reads: true, FinalReads: true}, 400, 900,
+		HistOpts{Features: GenFeatures, Steps: 25, Scripts: true, Reverts: true, Metadata: true, Reads: true, FinalReads: true, Bulks: true}, 400, 900,
 		func(s *HistorySummary) bool { return s.Reverts >= 1 && s.MetaOps >= 1 && s.Commits >= 3 })
 }
 
@@ -161,6 +161,6 @@ func TestC18(t *testing.T) {
 
 func TestC07(t *testing.T) {
 	runFocused(t, "C07", histGen+"; around every write that returns an error (insufficient funds, reference conflict, unknown/already reverted transaction, missing metadata, script failure) or is a dry run, the raw content of every table of the stand-in is compared before/after and must be identical; non-trivial = >= 2 failed writes, >= 1 dry run and >= 2 commits; distinct = by operation history",
-		HistOpts{Features: GenFeatures, Steps: 30, Scripts: true, Reverts: true, Metadata: true, NoTrace: true, Reads: false, FinalReads: true}, 400, 900,
+		HistOpts{Features: GenFeatures, Steps: 30, Scripts: true, Reverts: true, Metadata: true, NoTrace: true, Reads: false, FinalReads: true, Bulks: true}, 400, 900,
 		func(s *HistorySummary) bool { return s.Failures >= 2 && s.DryRuns >= 1 && s.Commits >= 2 })
 }
